@@ -207,7 +207,7 @@ def hist_part(ctx):
         raise vlib.MachineryError("coverage guard: operations never generated: %s (expected failures: %d of %d)" %
                                   (missing, summary["expected_failures"], summary["edges"]))
     # seeded simulation beyond the exhaustive bound
-    n = 100 if ctx.quick else 1500
+    n = 100 if ctx.quick else 800
     s = ctx.tlc("C20Hist", "C20HistSim.cfg", workers=1, timeout=1500, heap="4g", simulate="num=%d" % n, depth=8,
                 extra=["-seed", str(ctx.seed)])
     ssum, sdivs = replay_edges(ctx, s, "sim")
